@@ -43,6 +43,89 @@ def check(run):
     _r3(run, prog)
     _r4(run, prog, classes)
     _r5(run, prog, classes)
+    _r6(run, prog, eff)
+    from ._memo import check_inline_memos, check_ctor_derived, selfcheck
+    selfcheck()
+    scope = [c for c in prog.classes.values() if c.mod.relpath in FILES]
+    check_inline_memos(run, 'C18-R7', prog, eff, sorted(scope, key=lambda c_: c_.qual))
+    check_ctor_derived(run, 'C18-R7', prog, eff, sorted(scope, key=lambda c_: c_.qual))
+    run.subject('C18-R7')
+    run.ok('C18-R7', 'memo rules', 'self-check on the built-in examples passed', sample=False)
+
+
+def _r6(run, prog, eff):
+    """R6: the unit distributions are positive everywhere -- evaluate() has no path that returns a constant (a cut-off removes part of
+    the integral, so the cross-section no longer carries the whole pulse energy); the Gaussian beam prefactor is 1 / (2 pi sigma(z)^2)
+    for the same sigma(z)^2 that divides r^2 in the exponent; detaching the old laser segments does not iterate the list it shrinks."""
+    import copy
+    run.describe('C18-R6', 'distribution functions: no truncated path, beam prefactor matches its exponent; segment detachment iterates a stable list')
+    mf = prog.modules['cherab.core.model.laser.math_functions']
+    for cname, c in sorted((c.name, c) for c in prog.classes.values() if c.mod is mf):
+        fn = c.methods.get('evaluate')
+        if fn is None:
+            continue
+        rets = [r for r in ast.walk(fn) if isinstance(r, ast.Return) and r.value is not None]
+        if not any(isinstance(x, ast.Call) and dotted(x.func) == 'exp' for r in rets for x in ast.walk(r.value)):
+            continue
+        run.subject('C18-R6')
+        cut = [r for r in rets if isinstance(r.value, ast.Constant) or (isinstance(r.value, ast.UnaryOp) and isinstance(r.value.operand, ast.Constant))]
+        if cut:
+            run.fail('C18-R6', '%s|%s|evaluate|truncated' % (mf.name, cname), mf.relpath, cut[0].lineno,
+                     '%s.evaluate returns the constant %s on some path: the Gaussian is cut off there, so its integral over the cross-section '
+                     '(volume) is below one and the energy density no longer carries the whole pulse energy' % (cname, norm(cut[0].value)))
+        else:
+            run.ok('C18-R6', cname + '.evaluate', 'every path returns the exponential form (%d return)' % len(rets), sample=False)
+    c = prog.classes.get(mf.name + '.GaussianBeamModel')
+    if c is None or c.methods.get('evaluate') is None:
+        raise AnalysisError('anchored class vanished: GaussianBeamModel')
+    fn = c.methods['evaluate']
+    run.subject('C18-R6')
+    ev = SymEval()
+    run_block(ev, [st for st in fn.body if not isinstance(st, (ast.If, ast.Return))], [])
+    rets = [r for r in ast.walk(fn) if isinstance(r, ast.Return) and r.value is not None and not isinstance(r.value, ast.Constant)]
+    exps = [x for x in ast.walk(rets[-1].value) if isinstance(x, ast.Call) and dotted(x.func) == 'exp'] if rets else []
+    ps = [a.arg for a in fn.args.args[1:4]]
+    if len(exps) != 1 or len(ps) != 3:
+        run.undecided('C18-R6', 'GaussianBeamModel form', 'return value without exactly one exp()')
+    else:
+        A = ev.ev(exps[0].args[0])
+
+        class R(ast.NodeTransformer):
+            def visit_Call(self, n):
+                return ast.Constant(value=1) if n is exps0 else self.generic_visit(n)
+        rv = copy.deepcopy(rets[-1].value)
+        exps0 = [x for x in ast.walk(rv) if isinstance(x, ast.Call) and dotted(x.func) == 'exp'][0]
+        P = ev.ev(R().visit(rv))
+        r2 = L(ps[0]) * L(ps[0]) + L(ps[1]) * L(ps[1])
+        try:
+            s2 = C(0) - r2 / (C(2) * A)
+            good = P.eq(C(1) / (C(2) * L('pi') * s2)) or P.eq(C(1) / (C(2) * L('M_PI') * s2))
+        except ZeroDivisionError:
+            good = False
+        zdep = any(ps[2] in l or 'z_prime' in l for l in A.leaves()) or ps[2] in A.key()
+        if good and zdep:
+            run.ok('C18-R6', 'GaussianBeamModel form', '1 / (2 pi s2) * exp(-r2 / (2 s2)) with the same s2(z)')
+        elif good:
+            run.fail('C18-R6', '%s|GaussianBeamModel|evaluate|width' % mf.name, mf.relpath, fn.lineno,
+                     'GaussianBeamModel.evaluate: the width in the exponent does not depend on z (no beam divergence)')
+        else:
+            run.fail('C18-R6', '%s|GaussianBeamModel|evaluate|prefactor' % mf.name, mf.relpath, fn.lineno,
+                     'GaussianBeamModel.evaluate: prefactor %s is not 1 / (2 pi sigma^2) for the sigma^2 of its exponent %s: the cross-section '
+                     'integral is not one' % (P.key()[:60], A.key()[:60]))
+    # the laser node detaches its old segments by iterating its own record, not the children list that shrinks as they are detached
+    from ._purity import shrinking_iteration
+    laser = prog.classes.get('cherab.core.laser.node.Laser')
+    if laser is None:
+        raise AnalysisError('anchored class vanished: Laser')
+    run.subject('C18-R6')
+    bad = [(m, st, txt) for m in list(laser.methods.values()) + list(laser.setters.values()) for st, txt in shrinking_iteration(m)]
+    if bad:
+        m, st, txt = bad[0]
+        run.fail('C18-R6', 'cherab.core.laser.node|Laser|%s|shrinking-iteration' % m.name, laser.mod.relpath, st.lineno,
+                 'Laser.%s iterates %s while re-parenting its elements, which removes them from that very list: every second old segment is '
+                 'skipped and stays attached next to the new ones' % (m.name, txt))
+    else:
+        run.ok('C18-R6', 'Laser segment detachment', 'no loop re-parents the elements of the children list it iterates')
 
 
 def _fields(prog, ci, reads):
@@ -547,6 +630,11 @@ _PR = 'cherab/core/model/laser/profile.pyx'
 _LS = 'cherab/core/laser/laserspectrum.pyx'
 _GS = 'cherab/core/model/laser/laserspectrum.pyx'
 MUTANTS = [
+    dict(name='old-segments-detached-over-children', file='cherab/core/laser/node.pyx', find="        for i in self._geometry:\n            i.parent = None", replace="        for i in self.children:\n            i.parent = None", expect='C18-R6'),
+    dict(name='beam-cut-off-at-waist-width', file='cherab/core/model/laser/math_functions.pyx', find="        stddev_z2 = self._stddev_waist2 * (1 + ((z_prime) / self._rayleigh_range) ** 2)\n",
+         replace="        if r2 > 36 * self._stddev_waist2:\n            return 0\n        stddev_z2 = self._stddev_waist2 * (1 + ((z_prime) / self._rayleigh_range) ** 2)\n", expect='C18-R6'),
+    dict(name='beam-prefactor-waist-width', file='cherab/core/model/laser/math_functions.pyx', find="        return 1 / (2 * pi * stddev_z2) * exp(r2 / (-2 * stddev_z2))",
+         replace="        return 1 / (2 * pi * self._stddev_waist2) * exp(r2 / (-2 * stddev_z2))", expect='C18-R6'),
     dict(name='setter-notifies-instead-of-rebuilding', file=_PR, find="        self._stddev_waist = value\n        self._function_changed()", replace="        self._stddev_waist = value\n        self.notifier.notify()", expect='C18-R1'),
     dict(name='geometry-setter-silent', file=_PR, find="class UniformEnergyDensity(LaserProfile):", replace="class UniformEnergyDensity(LaserProfile):  # mutated", expect=None),
     dict(name='missing-speed-of-light', file=_PR, find="        length = SPEED_OF_LIGHT * self._pulse_length  # convert from temporal to spatial length of pulse\n        normalisation = self._pulse_energy / length   # normalisation",
